@@ -8,6 +8,7 @@ import Driver.OpsEditor
 import Driver.OpsExport
 import Driver.OpsGen
 import Driver.OpsGenXml
+import Driver.OpsXmlDoc
 import Driver.OpsGenSrc
 import Driver.OpsFile
 import Driver.OpsCapi
@@ -27,6 +28,7 @@ def step (line : String) : String :=
     else if op == "gen" then GenOps.run parts
     else if op == "c10.gensrc" then GenSrcOps.run parts
     else if op == "genxml" || op == "xmlenc" then GenXmlOps.run parts
+    else if op == "xml.doc" || op == "xml.cfg" then XmlDocOps.run parts
     else if op == "export" then ExportOps.run parts
     else if op == "editor" then EditorOps.run parts
     else if op.startsWith "capi." || op == "rpu.ops3" || op == "rpu.ops3json" || op == "rpu.filelist" then CapiOps.run parts
